@@ -1100,8 +1100,8 @@ class BaseGaussianState(BaseState):
             and cov is a square array containing the covariance matrix.
         """
         if modes == list(range(self._modes)):
-            # reduced state is full state
-            return self._mu, self._cov
+            # reduced state is full state (copies: callers modify what they get in place)
+            return self._mu.copy(), self._cov.copy()
 
         # reduce rho down to specified subsystems
         if isinstance(modes, int):
